@@ -681,6 +681,12 @@ class RecurrencePlot(Cached):
 
         distance = RecurrencePlot.distance_matrix(self, self.metric)
 
+        if self.missing_values:
+            #  State vectors with missing values are nobody's neighbor
+            distance = distance.copy()
+            distance[self.missing_value_indices, :] = np.inf
+            distance[:, self.missing_value_indices] = np.inf
+
         #  Get indices that would sort the distance matrix.
         #  sorted_neighbors[i,j] contains the index of the jth nearest neighbor
         #  of i. Sorting order is very important here!
@@ -697,6 +703,10 @@ class RecurrencePlot(Cached):
 
         _set_adaptive_neighborhood_size(n_time, adaptive_neighborhood_size,
                                         sorted_neighbors, order, recurrence)
+        if self.missing_values:
+            #  Write missing value lines and rows to recurrence matrix
+            recurrence[self.missing_value_indices, :] = 0
+            recurrence[:, self.missing_value_indices] = 0
         self.R = recurrence
 
     @staticmethod
